@@ -93,6 +93,12 @@ def resolved(s: PathSummary, v: Optional[ast.AST], before: Optional[int] = None,
     return v
 
 
+def _is_container(v: ast.AST) -> bool:
+    if isinstance(v, (ast.List, ast.Dict, ast.Set)) and not (v.elts if not isinstance(v, ast.Dict) else v.keys):
+        return True
+    return isinstance(v, ast.Call) and isinstance(v.func, ast.Name) and v.func.id in ("set", "list", "dict", "deque", "defaultdict", "OrderedDict") and not v.args and not v.keywords
+
+
 def closed(s: PathSummary, e: Optional[ast.AST], before: Optional[int] = None, depth: int = 4, keep: Sequence[str] = (), opq: Optional[frozenset] = None) -> Optional[ast.AST]:
     """*e* with the opaque locals it mentions replaced by what they were bound to on this path (constructor results, call results)."""
     import copy as _copy
@@ -101,26 +107,29 @@ def closed(s: PathSummary, e: Optional[ast.AST], before: Optional[int] = None, d
     before = len(s.effects) if before is None else before
 
     class T(ast.NodeTransformer):
-        def __init__(self, d):
+        def __init__(self, d, before_):
             self.d = d
+            self.before = before_
 
         def visit_Name(self, n: ast.Name):
             if isinstance(n.ctx, ast.Load) and self.d > 0 and n.id not in keep:
-                r = s.resolve(n.id, before)
+                r = s.resolve(n.id, self.before)
+                if r is not None and r[1].value is not None and _is_container(r[1].value):
+                    return n  # a container that is being filled keeps its name
                 if r is not None and (r[1].opaque or (opq is not None and n.id in opq)) and r[1].value is not None and isinstance(r[1].target, ast.Name) \
-                        and not (isinstance(r[1].value, ast.Name) and r[1].value.id == n.id) and not any(isinstance(x, ast.Name) and x.id == n.id for x in ast.walk(r[1].value)):
-                    return T(self.d - 1).visit(_copy.deepcopy(r[1].value))
+                        and not (isinstance(r[1].value, ast.Name) and r[1].value.id == n.id):
+                    # names inside the bound value are read as of the binding (a re-bound parameter inside it is the parameter itself)
+                    return T(self.d - 1, r[0]).visit(_copy.deepcopy(r[1].value))
                 if r is not None and r[1].value is not None and isinstance(r[1].target, (ast.Tuple, ast.List)) and all(isinstance(x, ast.Name) for x in r[1].target.elts):
                     # a, b = f(...)  : the name stands for element i of the call's result
                     i_ = [x.id for x in r[1].target.elts].index(n.id)
-                    if not any(isinstance(x, ast.Name) and x.id == n.id for x in ast.walk(r[1].value)):
-                        return ast.Subscript(value=T(self.d - 1).visit(_copy.deepcopy(r[1].value)), slice=ast.Constant(value=i_), ctx=ast.Load())
+                    return ast.Subscript(value=T(self.d - 1, r[0]).visit(_copy.deepcopy(r[1].value)), slice=ast.Constant(value=i_), ctx=ast.Load())
             return n
 
         def visit_Lambda(self, n):
             return n
 
-    return T(depth).visit(_copy.deepcopy(e))
+    return T(depth, before).visit(_copy.deepcopy(e))
 
 
 def closed_text(s: PathSummary, eff: Eff, keep: Sequence[str] = ()) -> str:
@@ -170,8 +179,8 @@ def loop_decs(sums: Sequence[PathSummary], line: int, roots: Sequence[str], fix:
 
 
 def judge(ctx: Ctx, rule: str, fi: FunctionInfo, construct: str, decs: Sequence[Dec], atoms: Sequence[str], spec, dont_care: Sequence[str] = (), node=None, why: str = "", equiv=None,
-          strict_foreign: bool = True) -> bool:
-    v, u = check_table(decs, atoms, spec, lambda d: d.outcome, dont_care, equiv=equiv, strict_foreign=strict_foreign)
+          strict_foreign: bool = True, assume=None) -> bool:
+    v, u = check_table(decs, atoms, spec, lambda d: d.outcome, dont_care, equiv=equiv, strict_foreign=strict_foreign, assume=assume)
     if v:
         ctx.bad(rule, fi, construct, "; ".join(v[:3]) + (f" - {why}" if why else ""), node=node or fi.node)
         return False
